@@ -223,7 +223,8 @@ struct Rng
 struct System
 {
   Index n = 0;
-  std::vector<double> a;       // dense n x n (after filter_mat)
+  std::vector<double> a;       // dense n x n, the operator as the solver sees it (unit rows only if filter_mat was applied)
+  std::vector<double> af;      // the matrix of the filtered system: a with unit rows at the filtered dofs
   std::vector<char> pat;       // sparsity pattern
   std::vector<Index> fidx;     // filtered dofs
   std::vector<double> fval;
@@ -237,16 +238,22 @@ struct System
 //        "nsym" nonsymmetric, strictly row diagonally dominant, positive diagonal
 //        "ispd" / "insym" the same with small integer entries (exact arithmetic scenarios)
 //        "near1" I + small nonsymmetric perturbation (unpreconditioned Richardson converges)
-static void make_system(System& S, const std::string& kind, Index n, std::uint64_t seed, double delta, double dens, int nfilter)
+//        "one" the 1x1 matrix [2]; "sid" the scaled identity 2 I; "diagev" diag(1,2,4,1,2,4,...): exact data for the
+//        scenario "breakdown" (right hand side = 4 e_k, an exact eigenvector: the Krylov space is exhausted after
+//        one step and every quantity of the first step is exact in floating point)
+// raw = true: the constraints of the unit filter are NOT built into the matrix rows (filter_mat is not applied); the
+// solvers then have to impose them through filter_def / filter_cor alone
+static void make_system(System& S, const std::string& kind, Index n, std::uint64_t seed, double delta, double dens, int nfilter, bool raw)
 {
   Rng r(seed);
   S.n = n; S.a.assign(n * n, 0.0); S.pat.assign(n * n, 0);
   const bool integer = (kind == "ispd" || kind == "insym");
   const bool symm = (kind == "spd" || kind == "spdg" || kind == "ispd");
+  const bool diagonal = (kind == "one" || kind == "sid" || kind == "diagev");
   for(Index i = 0; i < n; ++i)
     for(Index j = 0; j < n; ++j)
     {
-      if(i == j) continue;
+      if(i == j || diagonal) continue;
       if(symm && j < i) continue;
       bool band = (j == i + 1 || i == j + 1);
       if(!(band || r.uni() < dens)) continue;
@@ -265,6 +272,8 @@ static void make_system(System& S, const std::string& kind, Index n, std::uint64
     double d;
     if(integer) d = s + 1.0 + double(r.range(0, 2));
     else if(kind == "near1") d = 1.0;
+    else if(kind == "one" || kind == "sid") d = 2.0;
+    else if(kind == "diagev") d = double(1 << (i % 3));
     else d = s * (1.0 + delta) + delta;
     S.a[i * n + i] = d; S.pat[i * n + i] = 1;
   }
@@ -290,10 +299,12 @@ static void make_system(System& S, const std::string& kind, Index n, std::uint64
   }
   rp(n, p);
   S.mat = MatT(n, n, ci, va, rp);
-  if(!S.fidx.empty())
+  S.af = S.a;
+  for(Index q : S.fidx) { for(Index j = 0; j < n; ++j) S.af[q * n + j] = (j == q ? 1.0 : 0.0); }
+  if(!S.fidx.empty() && !raw)
   {
     S.fil.filter_mat(S.mat);
-    for(Index q : S.fidx) { for(Index j = 0; j < n; ++j) S.a[q * n + j] = (j == q ? 1.0 : 0.0); }
+    S.a = S.af;
   }
   double f = 0.0; for(double v : S.a) f += v * v; S.normF = std::sqrt(f);
 }
@@ -335,7 +346,7 @@ static std::vector<LD> residual_ld(const System& S, const std::vector<double>& x
 static bool inverse_ld(const System& S, std::vector<LD>& inv)
 {
   const Index n = S.n; std::vector<LD> m(n * n); inv.assign(n * n, 0);
-  for(Index i = 0; i < n * n; ++i) m[i] = LD(S.a[i]);
+  for(Index i = 0; i < n * n; ++i) m[i] = LD(S.af[i]);
   for(Index i = 0; i < n; ++i) inv[i * n + i] = 1;
   for(Index c = 0; c < n; ++c)
   {
@@ -530,6 +541,7 @@ static vj::Value one_solve(const vj::Value& c, Built<VT>& B, const System& S, co
   }
   T["solUnchanged"] = bitwise_equal(x, x0);
   { bool z = true; for(double v : x) z = z && (v == 0.0); T["solZero"] = z; }
+  T["raw"] = bool(c.has("rawmat") && c["rawmat"].as_bool() && !S.fidx.empty());
   T["delta10"] = (long long)std::llround(c["delta"].as_real() * 10.0); T["nfilter"] = (long long)S.fidx.size(); T["n"] = (long long)n;
   bool same = true;
   if(prev.have) same = same_values(x, prev.x) && prev.st == stname(ret) && prev.ni == (long long)sol.get_num_iter();
@@ -564,7 +576,7 @@ vj::Value run_case(const vj::Value& c)
   const Index n = Index(c["n"].as_int());
   const std::uint64_t seed = std::uint64_t(c["seed"].as_int());
   System S;
-  make_system(S, mkind, n, seed, c["delta"].as_real(), c["dens"].as_real(), (int)c["nfilter"].as_int());
+  make_system(S, mkind, n, seed, c["delta"].as_real(), c["dens"].as_real(), (int)c["nfilter"].as_int(), c.has("rawmat") && c["rawmat"].as_bool());
   const double omega = c.has("omega") ? c["omega"].as_real() : 1.0;
   if(sname == "PipePCG" || sname == "GroppPCG" || sname == "RBiCGStab")
   {
@@ -602,8 +614,14 @@ vj::Value run_scenarios(const vj::Value& c, Built<VT>& B, const System& S)
     garbage2[i] = (i % 3 == 0) ? std::numeric_limits<double>::quiet_NaN() : -7.5e8 * r.uni();
   }
   for(std::size_t q = 0; q < S.fidx.size(); ++q) xex[S.fidx[q]] = S.fval[q];
+  if(scen == "breakdown")
+  {
+    // exact eigenvector right hand side 4 e_k, zero start vector
+    const Index k = Index(seed % std::uint64_t(n));
+    for(Index i = 0; i < n; ++i) { b[i] = (i == k) ? 4.0 : 0.0; x0[i] = 0.0; }
+  }
   const bool exact_rhs = (scen == "exact");
-  if(exact_rhs || integer)
+  if((exact_rhs || integer) && scen != "breakdown")
   {
     // b := A * x_exact  (integers: exact)
     for(Index i = 0; i < n; ++i) { double s = 0; for(Index j = 0; j < n; ++j) s += S.a[i * n + j] * xex[j]; b[i] = s; }
@@ -624,7 +642,7 @@ vj::Value run_scenarios(const vj::Value& c, Built<VT>& B, const System& S)
   };
 
   B.solver->init();
-  if(scen == "basic" || scen == "converge" || scen == "lucky" || scen == "smooth" || scen == "precfail")
+  if(scen == "basic" || scen == "converge" || scen == "lucky" || scen == "breakdown" || scen == "smooth" || scen == "precfail")
   {
     const std::string mode = c["mode"].as_str();
     Prev p;
